@@ -179,6 +179,30 @@ Theorem C09_desc_upid_laws : forall d,
 Proof. exact desc_upid_laws. Qed.
 Print Assumptions C09_desc_upid_laws.
 
+(* the object-level setters act on the signal through CommandInfo() / Descriptors()[i], after any history: together with
+   C09_insert_setters / C09_desc_setters this is the getter law for every setter of the sub-objects *)
+Theorem C09_set_through_command : forall s0 ops o,
+  let s := run_script s0 ops in
+  let s' := run_script s0 (ops ++ [SCmd o]) in
+  s_cmd s' = apply_cmd_op o (s_cmd s) /\ s_cmd_type s' = s_cmd_type s /\ s_descs s' = s_descs s /\ s_pts s' = s_pts s.
+Proof. exact set_through_command. Qed.
+Print Assumptions C09_set_through_command.
+Theorem C09_set_through_descriptor : forall s0 ops i o d0,
+  let s := run_script s0 ops in
+  let s' := run_script s0 (ops ++ [SDesc i o]) in
+  (i < length (s_descs s))%nat ->
+  nth i (s_descs s') d0 = apply_desc_op o (nth i (s_descs s) d0) /\
+  (forall j, j <> i -> nth j (s_descs s') d0 = nth j (s_descs s) d0) /\
+  length (s_descs s') = length (s_descs s) /\ s_cmd s' = s_cmd s.
+Proof. exact set_through_descriptor. Qed.
+Print Assumptions C09_set_through_descriptor.
+(* a flag can be cleared after it was set (and the other way round) without disturbing the value kept beside it *)
+Theorem C09_insert_flag_clear : forall i b v,
+  i_has_duration (apply_ins_op (ISetHasDuration b) (apply_ins_op (ISetDuration v) (apply_ins_op (ISetHasDuration (negb b)) i))) = b /\
+  i_duration (apply_ins_op (ISetHasDuration b) (apply_ins_op (ISetDuration v) i)) = v.
+Proof. exact ins_flag_clear. Qed.
+Print Assumptions C09_insert_flag_clear.
+
 (* every history from CreateSCTE35 keeps: command type consistent, tier 12 bits, command / component pts 33 bits,
    UPID / MID exclusivity, 40-bit durations, descriptors owned by the signal, table header of a splice_info_section *)
 Theorem C09_history_inv : forall ops, sig_inv (run_script create_scte35 ops).
